@@ -148,7 +148,13 @@ func (c *Ctx) safeEncoded(e ast.Expr, defs map[types.Object][]ast.Expr, depth in
 						if call, ok := unparen(d).(*ast.CallExpr); ok && c.isBuiltin(call, "make") {
 							continue
 						}
-						allOK, why = false, "the fragment table "+id.Name+" is initialised from "+exprString(d)
+						// a table handed over by a helper (or built by append): every fragment in it must be an encoder result
+						if good, w := c.safeEncoded(d, defs, depth+1, bufOK); good {
+							stores++
+							continue
+						} else {
+							allOK, why = false, "the fragment table "+id.Name+" is initialised from "+exprString(d)+": "+w
+						}
 					}
 					if stores > 0 && allOK {
 						return true, ""
